@@ -98,27 +98,9 @@ Definition k_is_task : str := Eval compute in s2l "_is_task".
 Definition k_is_enum : str := Eval compute in s2l "_is_enum".
 Definition k_class : str := Eval compute in s2l "__class__".
 Definition k_name : str := Eval compute in s2l "name".
+Definition k_is_dict : str := Eval compute in s2l "_is_dict".
+Definition k_items : str := Eval compute in s2l "items".
 
-Definition ser_scalar (s : scalar) : json :=
-  match s with
-  | SNone => JNull
-  | SBool b => JBool b
-  | SInt z => JInt z
-  | SFloat f => JFloat f
-  | SStr s => JStr s
-  | SEnum c m => JObj [(k_is_enum, JBool true); (k_class, JStr c); (k_name, JStr m)]
-  end.
-
-Fixpoint ser (v : value) : json :=
-  match v with
-  | VScal s => ser_scalar s
-  | VTuple l => JArr (map ser l)
-  | VDict kvs => JObj (map (fun kv => (fst kv, ser (snd kv))) kvs)
-  | VTask c fs => JObj ((k_is_task, JBool true) :: (k_class, JStr c) :: map (fun kv => (fst kv, ser (snd kv))) fs)
-  end.
-
-(* class environment: fields of each task class (class order), members of each enum class *)
-Record env := { task_classes : list (str * list str); enum_classes : list (str * list str) }.
 Fixpoint alookup {V} (m : list (str * V)) (k : str) : option V :=
   match m with
   | [] => None
@@ -141,6 +123,46 @@ Definition flag (kvs : list (str * json)) (k : str) : bool :=
   match alookup kvs k with Some j => truthy j | None => false end.
 
 
+
+
+Definition ser_scalar (s : scalar) : json :=
+  match s with
+  | SNone => JNull
+  | SBool b => JBool b
+  | SInt z => JInt z
+  | SFloat f => JFloat f
+  | SStr s => JStr s
+  | SEnum c m => JObj [(k_is_enum, JBool true); (k_class, JStr c); (k_name, JStr m)]
+  end.
+
+(* a serialised dict that would read back as a task, an enum member or a wrapped dict (one of the marker keys is present with a
+   truthy value) is wrapped: {"_is_dict": true, "items": {...}} *)
+Definition marked (kvs : list (str * json)) : bool := flag kvs k_is_task || flag kvs k_is_enum || flag kvs k_is_dict.
+Definition wrap_dict (kvs : list (str * json)) : json :=
+  if marked kvs then JObj [(k_is_dict, JBool true); (k_items, JObj kvs)] else JObj kvs.
+
+Fixpoint ser (v : value) : json :=
+  match v with
+  | VScal s => ser_scalar s
+  | VTuple l => JArr (map ser l)
+  | VDict kvs => wrap_dict (map (fun kv => (fst kv, ser (snd kv))) kvs)
+  | VTask c fs => JObj ((k_is_task, JBool true) :: (k_class, JStr c) :: map (fun kv => (fst kv, ser (snd kv))) fs)
+  end.
+
+(* the serialiser before defect D9 was repaired: dicts are never wrapped *)
+Fixpoint ser_plain (v : value) : json :=
+  match v with
+  | VScal s => ser_scalar s
+  | VTuple l => JArr (map ser_plain l)
+  | VDict kvs => JObj (map (fun kv => (fst kv, ser_plain (snd kv))) kvs)
+  | VTask c fs => JObj ((k_is_task, JBool true) :: (k_class, JStr c) :: map (fun kv => (fst kv, ser_plain (snd kv))) fs)
+  end.
+
+Definition ser_of (m : ser_mode) : value -> json :=
+  match m with SerWrapsDicts => ser | SerPlainDicts => ser_plain | SerUnknown => fun _ => JNull end.
+
+(* class environment: fields of each task class (class order), members of each enum class *)
+Record env := { task_classes : list (str * list str); enum_classes : list (str * list str) }.
 Section Deser.
   Variable mode : deser_mode.
   Variable e : env.
@@ -158,7 +180,8 @@ Section Deser.
     | JObj kvs => option_map VDict (opt_all (map (fun kv => option_map (pair (fst kv)) (plain (snd kv))) kvs))
     end.
 
-  Fixpoint deser (j : json) : option value :=
+  (* [as_dict]: decode a JSON object as a plain dict whatever keys it has (the "items" of a wrapped dict) *)
+  Fixpoint deser_gen (as_dict : bool) (j : json) {struct j} : option value :=
     match j with
     | JNull => Some (VScal SNone)
     | JBool b => Some (VScal (SBool b))
@@ -167,17 +190,19 @@ Section Deser.
     | JStr s => Some (VScal (SStr s))
     | JArr l =>
       match mode with
-      | DRecursive => option_map VTuple (opt_all (map deser l))
+      | DRecursive => option_map VTuple (opt_all (map (deser_gen false) l))
       | _ => plain j
       end
     | JObj kvs =>
-      if flag kvs k_is_task then
+      if as_dict then
+        option_map VDict (opt_all (map (fun kv => option_map (pair (fst kv)) (deser_gen false (snd kv))) kvs))
+      else if flag kvs k_is_task then
         match alookup kvs k_class with
         | Some (JStr c) =>
           match alookup (task_classes e) c with
           | None => None
           | Some fnames =>
-            let decoded := map (fun kv => (fst kv, deser (snd kv))) kvs in
+            let decoded := map (fun kv => (fst kv, deser_gen false (snd kv))) kvs in
             let params := filter (fun kv => negb (str_eqb (fst kv) k_is_task) && negb (str_eqb (fst kv) k_class)) decoded in
             if forallb (fun kv => smem (fst kv) fnames) params then
               option_map (VTask c)
@@ -198,22 +223,30 @@ Section Deser.
           end
         | _, _ => None
         end
+      else if flag kvs k_is_dict then
+        match alookup (map (fun kv => (fst kv, deser_gen true (snd kv))) kvs) k_items with
+        | Some (Some (VDict items)) => Some (VDict items)
+        | _ => None
+        end
       else
         match mode with
-        | DRecursive => option_map VDict (opt_all (map (fun kv => option_map (pair (fst kv)) (deser (snd kv))) kvs))
+        | DRecursive => option_map VDict (opt_all (map (fun kv => option_map (pair (fst kv)) (deser_gen false (snd kv))) kvs))
         | _ => plain j
         end
     end.
+  Definition deser : json -> option value := deser_gen false.
 End Deser.
 
 (* ---- guards *)
 Definition has_key {V} (k : str) (kvs : list (str * V)) : bool := existsb (fun kv => str_eqb k (fst kv)) kvs.
+(* no task has a parameter named like one of the two header keys of its serialised form (a dataclass field cannot be called
+   _is_task, labtech reserves it; __class__ is not a legal field name either).  Dict keys are unrestricted: a dict that would read
+   back as something else is wrapped. *)
 Fixpoint no_reserved (v : value) : bool :=
   match v with
   | VScal _ => true
   | VTuple l => forallb no_reserved l
-  | VDict kvs => negb (has_key k_is_task kvs) && negb (has_key k_is_enum kvs)
-                 && forallb (fun kv => no_reserved (snd kv)) kvs
+  | VDict kvs => forallb (fun kv => no_reserved (snd kv)) kvs
   | VTask _ fs => negb (has_key k_is_task fs) && negb (has_key k_class fs)
                   && forallb (fun kv => no_reserved (snd kv)) fs
   end.
